@@ -149,8 +149,10 @@ class _FilesystemDataSource(DataSource):
         if not os.path.exists(non_versioned_path):
             result = False
         else:
+            # A link file that is empty or truncated (e.g. after a crash or a failed write)
+            # does not designate a stored object: only trust it if it points to a file.
             path = self._read_non_versioned_link(key)
-            result = path.exists()
+            result = path.is_file()
         log.debug("Exists {}? {}".format(key, result))
         return result
 
